@@ -209,6 +209,43 @@ theorem C02_entry_point_drops {G : Type} (step : G → List (Input × InputStatu
     rw [hn] at hg hchk
     exact ⟨c, c', hg, hchk, by rw [hcur, hc3.sync]⟩
 
+/-- **C02 at the real entry point with drops, the other peers' reports included.** As
+`C02_entry_point_drops`, but `update_player_disconnects` may act: every cut-off it adopts from the
+running endpoints' reports is a step of the world (`XStep.adopt`) as long as it is one the world
+allows (`UpdOK`) — not beyond the last frame of a still-connected player of that endpoint, and not
+before the last frame of a player that is already marked. The excluded case, a cut-off earlier
+than an already dropped player's last frame, is the known finding of C10 (the session then
+re-simulates frames whose inputs it has discarded, or keeps its own later cut-off). On the very
+first call (frame 0) no adoption is assumed. -/
+theorem C02_entry_point_gossip {G : Type} (step : G → List (Input × InputStatus) → G) (g0 : G) (csf : G → Option Nat)
+    (a b : P2P × GS G) (h0 : CInvD step g0 csf a) (hrun : CXStar step csf a b)
+    (now : Nat) (s' : P2P) (reqs' : List Request)
+    (hmp : (b.1.maxPrediction == 0) = false)
+    (hng : ∀ s1, b.1.desyncPhase now = .ok s1 →
+      (s1.sync.currentFrame = 0 → QuietGossip s1) ∧ UpdOK now (List.range s1.numPlayers) s1)
+    (hcall : b.1.advanceFrameCore now = .ok (s', .ok reqs')) :
+    CInvD step g0 csf
+      (s'.userExecute (gameSaves step csf b.1.sync.cells.length b.2 reqs'), execGs step b.1.sync.cells.length b.2 reqs') ∧
+    ∃ c c', GInv step g0 b.1.sync.cells.length b.2 c ∧ ChkList b.1.sync.cells.length c reqs' c' ∧
+      c'.cur = s'.sync.currentFrame := by
+  have hb := CInvD_run step g0 csf a b h0 hrun
+  obtain ⟨hpath, sm, s3, hpm, hn, hc3, hform⟩ := call_is_pathG step csf b.1 s' b.2 now reqs' hmp hng hcall
+  refine ⟨CInvD_run step g0 csf b _ hb hpath, ?_⟩
+  have h1 := (CInvD_run step g0 csf b (sm, b.2) hb hpm).1
+  rcases hform with hadv | ⟨sy, r, hf0, hsv, hadv⟩
+  · obtain ⟨_, ⟨c, c', hg, hchk, hcur⟩, _⟩ := WInvD_tick step g0 sm s3 b.2 now reqs' ((savedFrames reqs').map fun f => (f, none)) h1 hadv
+      (by simp [List.map_map, Function.comp_def])
+    rw [hn] at hg hchk
+    exact ⟨c, c', hg, hchk, by rw [hcur, hc3.sync]⟩
+  · obtain ⟨_, ⟨c, c', hg, hchk, hcur⟩, _⟩ := WInvD_tick0 step g0 sm s3 b.2 now sy r reqs' ((savedFrames reqs').map fun f => (f, none)) h1 hf0 hsv hadv
+      (by simp [List.map_map, Function.comp_def])
+    rw [hn] at hg hchk
+    exact ⟨c, c', hg, hchk, by rw [hcur, hc3.sync]⟩
+
+/-- `QuietGossip` is the special case in which nothing is adopted. -/
+example (now : Nat) (s : P2P) (h : QuietGossip s) : UpdOK now (List.range s.numPlayers) s :=
+  UpdOK_of_quiet now _ s h
+
 /-- **The poll in front of the entry point (every state).** `advance_frame` is
 `poll_remote_clients` followed by `advance_frame_core`. Whatever messages arrive, the poll changes
 the core of the session — sync layer, queues, connection statuses, disconnect frame: everything the
